@@ -499,6 +499,11 @@ impl Query {
                 r.features(out);
             }
             Query::Core(c) => {
+                let mut ts = vec![];
+                c.from.tables(&mut ts);
+                if ts.len() >= 3 {
+                    out.push("from_three_tables");
+                }
                 match &c.from {
                     From::Table(_) => out.push("from_table"),
                     From::Cross(..) => out.push("from_comma_join"),
@@ -608,13 +613,38 @@ impl<'a> QGen<'a> {
         } else {
             g.boolean(r, 1)
         };
-        match k {
+        let two = match k {
             5 | 6 => f,
             7 | 8 => From::Inner(l, rr, on),
             9 => From::Left(l, rr, on),
             10 => From::Right(l, rr, on),
             _ => if r.chance(1, 2) { From::Full(l, rr, on) } else { From::Left(l, rr, on) },
+        };
+        // sometimes a third table joins the pair (left-deep: the shapes the engine supports have a
+        // single table on the right of every join)
+        if n >= 3 && r.chance(1, 6) {
+            let c = (0..n).find(|t| *t != a && *t != b).unwrap();
+            let cr = Box::new(From::Table(c));
+            let f3 = From::Cross(Box::new(two.clone()), cr.clone());
+            let tys3 = f3.tys(self.db);
+            let names3 = f3.names(self.db);
+            let ps3 = pseudo_schema(&names3, &tys3);
+            let g3 = Gen::new(&ps3);
+            let w2 = tys.len();
+            let li3: Vec<usize> = (0..w2).filter(|i| tys3[*i] == Ty::Int).collect();
+            let ri3: Vec<usize> = (w2..tys3.len()).filter(|i| tys3[*i] == Ty::Int).collect();
+            let on3 = if !li3.is_empty() && !ri3.is_empty() && r.chance(3, 4) {
+                E::Bin(Op::Eq, Box::new(E::Col(*r.pick(&li3))), Box::new(E::Col(*r.pick(&ri3))))
+            } else {
+                g3.boolean(r, 1)
+            };
+            return match r.below(3) {
+                0 => f3,
+                1 => From::Inner(Box::new(two), cr, on3),
+                _ => From::Left(Box::new(two), cr, on3),
+            };
         }
+        two
     }
 
     fn gen_sub(&self, r: &mut Rng, outer_tbls: &[usize], outer_names: &[String], outer_tys: &[Ty], want: Ty, scalar: bool) -> Option<SubQ> {
